@@ -47,7 +47,7 @@ Op(rr) ==
     LET S == Ents("stack")
     IN IF S = {} THEN Source(rr)
     ELSE
-    LET i == Ch(S, rr[1])  xs == pool[i].v  n == Len(xs)  o == Ch(1..16, rr[2])  x == (rr[3] % 7) - 1
+    LET i == Ch(S, rr[1])  xs == pool[i].v  n == Len(xs)  o == Ch(1..19, rr[2])  x == (rr[3] % 7) - 1
     IN CASE o \in {1, 2} -> New("stack", Append(xs, IntV(x)), Call("push", <<V(i), Lit(x)>>))
          [] o \in {3, 4} -> IF n = 0 THEN NewErr("stack", Call("tail", <<V(i)>>))
                             ELSE New("stack", SubSeq(xs, 1, n - 1), Call("tail", <<V(i)>>))
@@ -69,6 +69,14 @@ Op(rr) ==
          \* (equality is structural: what lies below a shared element still counts)
          [] o \in {14, 15, 16} /\ Ents("int") # {} -> LET j == Ch(Ents("int"), rr[3])
                       IN New("stack", Append(xs, pool[j].v), Call("push", <<V(i), V(j)>>))
+         \* two stacks with the very same value object on top and (possibly) different elements below it
+         [] o \in {17, 18, 19} /\ Ents("int") # {} /\ n >= 1 ->
+                      LET j == Ch(Ents("int"), rr[3])
+                          ys == Append(SubSeq(xs, 1, n - 1), IntV(x))
+                          a == Call("push", <<V(i), V(j)>>)
+                          b == Call("push", <<Call("push", <<Call("tail", <<V(i)>>), Lit(x)>>), V(j)>>)
+                      IN IF o = 19 /\ xs = ys THEN New("bool", BoolV(TRUE), Op2("eq", Call("hash", <<a>>), Call("hash", <<b>>)))
+                         ELSE New("bool", BoolV(xs = ys), Op2("eq", a, b))
          [] OTHER -> Source(rr)
 
 Init == pool = <<>> /\ step = 0 /\ r = <<>>
